@@ -4,11 +4,17 @@ package dtls
 
 import (
 	"bytes"
+	"context"
 	"fmt"
 	"strings"
+	"sync"
 	"testing"
 	"testing/synctest"
 	"time"
+
+	dtlsflight "github.com/pion/dtls/v3/internal/flight"
+	"github.com/pion/dtls/v3/pkg/protocol"
+	"github.com/pion/dtls/v3/pkg/protocol/recordlayer"
 )
 
 // C14 — session resumption. Histories of up to three connections over two shared, instrumented
@@ -697,6 +703,131 @@ func vfC14FatalOnEstablished(t *testing.T, res *vfResult, cfgName, victim string
 	synctest.Wait()
 }
 
+// vfBadAlert marshals as an alert record whose body does not decode (three bytes).
+type vfBadAlert struct{}
+
+func (vfBadAlert) ContentType() protocol.ContentType { return protocol.ContentTypeAlert }
+func (vfBadAlert) Marshal() ([]byte, error)          { return []byte{2, 40, 0}, nil }
+func (vfBadAlert) Unmarshal([]byte) error            { return nil }
+
+// vfC14FatalOnImported: the endpoint that sends the fatal alert is a connection imported with ResumeWithOptions (given
+// its session store again). "A session on which an endpoint sent a fatal alert is no longer offered from that endpoint's
+// store" holds for it as for any other connection of that session.
+func vfC14FatalOnImported(t *testing.T, res *vfResult, cfgName, victim string) {
+	res.Eval(1)
+	id := fmt.Sprintf("fatal-on-imported|%s|victim=%s", cfgName, victim)
+	replay := map[string]any{"fatal_on_imported": id}
+	cS, sS := vfNewMemStore("c"), vfNewMemStore("s")
+	cfg := vfC14Cfg(cfgName, "same")
+	co, so := cfg.Options(cS, sS)
+	w := &vfC19World{n: vfNewNet(), cfg: cfg}
+	w.c = &vfC19Peer{name: "c", raddr: vfAddr(vfServerAddr)}
+	w.s = &vfC19Peer{name: "s", raddr: vfAddr(vfClientAddr)}
+	w.c.ep, w.s.ep = w.n.Endpoint("c", vfClientAddr), w.n.Endpoint("s", vfServerAddr)
+	w.c.sock, w.s.sock = &vfDetach{ep: w.c.ep}, &vfDetach{ep: w.s.ep}
+	var err error
+	if w.c.conn, err = ClientWithOptions(w.c.sock, w.c.raddr, co...); err != nil {
+		res.Count("config_rejected", 1)
+
+		return
+	}
+	if w.s.conn, err = ServerWithOptions(w.s.sock, w.s.raddr, so...); err != nil {
+		res.Count("config_rejected", 1)
+
+		return
+	}
+	var wg sync.WaitGroup
+	var ce, se error
+	wg.Add(2)
+	go func() {
+		defer wg.Done()
+		_ = w.c.conn.SetDeadline(time.Now().Add(time.Minute))
+		ce = w.c.conn.Handshake()
+	}()
+	go func() {
+		defer wg.Done()
+		_ = w.s.conn.SetDeadline(time.Now().Add(time.Minute))
+		se = w.s.conn.Handshake()
+	}()
+	wg.Wait()
+	if ce != nil || se != nil {
+		res.Count("first_connection_failed", 1)
+		w.close()
+
+		return
+	}
+	_ = w.c.conn.SetDeadline(time.Time{})
+	_ = w.s.conn.SetDeadline(time.Time{})
+	w.c.pump()
+	w.s.pump()
+	st, _ := w.c.conn.ConnectionState()
+	sid := append([]byte(nil), st.SessionID...)
+	held := func() bool {
+		if victim == "s" {
+			_, ok := sS.Snapshot()[string(sid)]
+
+			return ok
+		}
+
+		return bytes.Equal(vfC14ClientEntry(cS).ID, sid)
+	}
+	if len(sid) == 0 || !held() {
+		res.Count("fatal_on_imported_nothing_stored", 1)
+		w.close()
+
+		return
+	}
+	x, y := w.c, w.s
+	store := cS
+	if victim == "s" {
+		x, y = w.s, w.c
+		store = sS
+	}
+	// (resumed with the options that identify the session in the store: the store itself and, for a client, the
+	// server name its sessions are filed under)
+	w.resumeOpts = []Option{WithSessionStore(store)}
+	if victim == "c" {
+		w.resumeOpts = append(w.resumeOpts, WithServerName(vfServerName))
+	}
+	if _, _, stage, xerr := w.export(x, nil); xerr != nil {
+		res.Count("fatal_on_imported_export_failed/"+stage, 1)
+		w.close()
+
+		return
+	}
+	if msg, _ := w.send(y, "to-imported"); msg != "" {
+		res.Count("fatal_on_imported_no_data_after_import", 1)
+		w.close()
+
+		return
+	}
+	before := len(w.n.Emissions(x.name))
+	// the peer's correctly protected record carries an alert that does not decode: the imported endpoint answers with a
+	// fatal decode_error
+	werr := y.conn.writePackets(context.Background(), []*dtlsflight.Packet{{
+		Record:        &recordlayer.RecordLayer{Header: recordlayer.Header{Epoch: vfCommon(y.conn).LocalEpoch(), Version: protocol.Version1_2}, Content: vfBadAlert{}},
+		ShouldWrapCID: len(vfCommon(y.conn).RemoteConnectionID) > 0,
+		ShouldEncrypt: true,
+	}})
+	time.Sleep(200 * time.Millisecond)
+	synctest.Wait()
+	res.NonTrivial(id)
+	// (nothing else makes the silent imported endpoint emit: the record it sent in answer is its fatal alert)
+	if len(w.n.Emissions(x.name)) == before {
+		res.Count("fatal_on_imported_no_fatal_alert_provoked", 1)
+		res.Seen("fatal_on_imported_not_provoked", fmt.Sprintf("%s: write err %v, emitted %d, closed %v", id, werr, len(w.n.Emissions(x.name))-before, x.conn.isConnectionClosed()))
+		w.close()
+
+		return
+	}
+	res.Count("fatal_alerts_provoked_on_imported_connections", 1)
+	if held() {
+		res.Violate(fmt.Sprintf("C14:session-still-in-%s-store-after-fatal-alert:imported-connection", map[string]string{"c": "client", "s": "server"}[victim]),
+			fmt.Sprintf("%s: the imported %s (resumed with its session store) sent a fatal alert on the connection of session %x, yet its store still holds that session", id, x.name, sid), replay)
+	}
+	w.close()
+}
+
 func vfC14Cases() []vfC14Case {
 	var out []vfC14Case
 	idx := 0
@@ -779,6 +910,9 @@ func TestVF_C14(t *testing.T) {
 	vfBubbles(t, len(fes), func(t *testing.T, i int) {
 		vfC14FatalOnEstablished(t, res, fes[i].cfg, fes[i].victim, fes[i].dual, fes[i].migrate)
 	})
+	fis := [][2]string{{"ecdsa", "c"}, {"ecdsa", "s"}, {"ecdsa-cid", "c"}, {"ecdsa-cid", "s"}, {"psk", "s"}}
+	vfBubbles(t, len(fis), func(t *testing.T, i int) { vfC14FatalOnImported(t, res, fis[i][0], fis[i][1]) })
+	res.Floor("fatal_alerts_provoked_on_imported_connections", 3)
 	res.Floor("fatal_alerts_provoked_on_established_sessions", 6)
 	res.Floor("abbreviated_agreeing", 20)
 	res.Floor("fallback_full", 5)
